@@ -25,7 +25,7 @@ PROPS = {
         "level_text": "Seeded search over interleavings of concurrent atom operations executed by the real interpreter under a token scheduler; "
                       "every recorded history is checked for linearizability against the sequential atom model (porcupine), hangs are decided by the "
                       "scheduler (no enabled task / horizon), data races by the Go race detector on the same tapes. Rare run shapes reach long histories: a siege schedule makes one swap! lose 40-2100 "
-                      "compare-and-set rounds in a row, a flood fills memoize's table with up to 1100 entries against concurrent lookups. Evidence, not proof: interleavings "
+                      "compare-and-set rounds in a row, a flood fills memoize's table with up to 700 entries against concurrent lookups. Evidence, not proof: interleavings "
                       "are sampled at hook granularity.",
         "level_note": "Trusts the simulator (token scheduler, synctest clock), porcupine, ThreadSanitizer; operations inside a Go builtin or an env critical section are atomic in the simulation.",
         "rule": "one run = one seeded tape: 1-3 atoms holding lists of unique tokens, 2-5 simulated caller threads x 1-6 operations from 34 kinds (printing an atom is a read; one kind's update function starts a future that later swaps the same atom) (deref in both forms, reset!, "
@@ -34,7 +34,7 @@ PROPS = {
                 "nested inside update functions - recorded as an operation; swap! through the builtin update with a callback reading the atom being swapped; fault: one operation in eight runs under a context of its own that is "
                 "cancelled at a drawn hook point inside it (an operation that ended with that timeout error is placed by whether anybody saw its unique token); memoize histories additionally require that a call invoked after an earlier call with the same argument returned "
                 "does not compute again. Two rare run shapes for long histories: siege (1 run in 120: the scheduler parks one swap! in every read/apply window and lets a second thread complete one reset! each time, 40-2100 rounds in a row; "
-                "the whole history goes to porcupine) and flood (1 run in 150: 100-1100 memoized calls with distinct arguments against concurrent lookups of seven small ones; values only are judged). Scheduling: seeded quantum walk, PCT (depth 1-3) or starvation, at evaluation steps, statement-level yields "
+                "the whole history goes to porcupine) and flood (1 run in 150: 100-700 memoized calls with distinct arguments against concurrent lookups of seven small ones; values only are judged). Scheduling: seeded quantum walk, PCT (depth 1-3) or starvation, at evaluation steps, statement-level yields "
                 "inserted into lib/concurrent/concurrent.go, lock acquisitions (with RWMutex writer preference emulated) and the swap! read/apply/retry windows. "
                 "non-trivial = at least 2 tasks, more than one token switch and at least one preemption inside a named or auto-inserted window; "
                 "distinct = distinct hash of the sequence of (task, hook point) pairs at which the token changed hands",
